@@ -63,6 +63,7 @@ type Query struct {
 	PC      []*Term
 	Goal    *Term
 	Trivial bool // goal folded to true by the simplifier
+	batchVerdict string
 	Model   map[string]string
 	// results
 	Result  string // unsat | sat | unknown | timeout | trivial
@@ -80,6 +81,7 @@ type ActiveLoop struct {
 	Variant  *Term
 	Unrolled int
 	Cands    []*Term
+	CandList []*candidate // inferred candidates assumed at this loop head (shared, immutable)
 	Entry    *snapshot
 }
 
